@@ -81,6 +81,27 @@ def evict (marks' : Marks) (rn rm : Bytes → Bool) (low : Nat) : List Entry →
         let r := evict marks' rn rm low rest t'
         { r with evicted := e :: r.evicted }
 
+/-- The same loop when the marks change WHILE it runs (this process stores and retrieves during the pass): every
+    candidate comes with the marks in force at the moment of its own `isMarked` test. -/
+def evictP (rn rm : Bytes → Bool) (low : Nat) : List (Entry × Marks) → Nat → Outcome
+  | [], t => ⟨[], [], [], t⟩
+  | (e, m) :: rest, t =>
+    if (m e.path).isSome then
+      let r := evictP rn rm low rest t
+      { r with kept := e :: r.kept }
+    else if !rn e.path then
+      let r := evictP rn rm low rest t
+      { r with kept := e :: r.kept }
+    else if !rm e.path then
+      let r := evictP rn rm low rest t
+      { r with half := e :: r.half }
+    else
+      let t' := t - e.size
+      if t' < low then ⟨[e], rest.map (·.1), [], t'⟩
+      else
+        let r := evictP rn rm low rest t'
+        { r with evicted := e :: r.evicted }
+
 /-- `clean(high, low)`. `order` is what the sort made of the candidates. -/
 def clean (marks marks' : Marks) (rn rm : Bytes → Bool) (high low : Nat) (found order : List Entry) : Outcome :=
   let sc := scan marks found
